@@ -145,6 +145,37 @@ Loop:
 	wg2.Wait()
 	lines = append(lines, fmt.Sprint("n=", b.n))
 
+	// a condition variable: producer/consumer queue
+	var qmu sync.Mutex
+	cond := sync.NewCond(&qmu)
+	var queue []int
+	got := 0
+	var wg3 sync.WaitGroup
+	wg3.Add(2)
+	go func() {
+		defer wg3.Done()
+		for i := 1; i <= 5; i++ {
+			cond.L.Lock()
+			queue = append(queue, i)
+			cond.L.Unlock()
+			cond.Signal()
+		}
+	}()
+	go func() {
+		defer wg3.Done()
+		for n := 0; n < 5; n++ {
+			qmu.Lock()
+			for len(queue) == 0 {
+				cond.Wait()
+			}
+			got += queue[0]
+			queue = queue[1:]
+			qmu.Unlock()
+		}
+	}()
+	wg3.Wait()
+	lines = append(lines, fmt.Sprint("cond=", got))
+
 	// map ranges: define, assign, key only, value only, delete during iteration
 	m := map[string]int{"a": 1, "b": 2, "c": 3}
 	var keys []string
